@@ -645,3 +645,8 @@ def check(program: Program, run: Run) -> None:
                     "fields, so the literal decodes to a different value or rendering raises", where=f"{src_[2]}:{src_[1]}" if src_ else "", rule="R7")
     if n6 < 40:
         raise AnalysisError(f"instance count below floor: value-kind cells {n6}")
+
+    # ---- the mechanism keeps no state between renderings (shared rule, see families.inherit_history_dependence)
+    from ..families import inherit_history_dependence
+    run.rule("history: no function of this property's mechanism writes object / class / parameterizer state while rendering or memoises on a copied object (inherited from C02 and C01)")
+    inherit_history_dependence(program, run, "C05", r"^(ValueWrapper|MySQLValueWrapper|SQLLiteValueWrapper|JSON)\.|^utils\.format_quotes", "the literal printed for a value depends on what was inlined before (possibly under another dialect's escape rule)")
